@@ -448,6 +448,13 @@ def decide(ctx: Ctx, cases: list[dict], stride: int = 1):
         if t["kind"] == "run" and t["call"] == "layout" and t.get("ret") == 1 and t["n"] > 0 and not t["snaps"]:
             lost += 1
         for (_l, clause) in v["fails"]:
+            if clause == "visualize_returns_the_same_layout":
+                # `visualize` is a parameter: the statement's "deterministic" does not say that a call WITH it returns what a
+                # call WITHOUT it returns (only the documentation suggests so).  Reported as drift; a visualize path that
+                # returns a wrong layout is still caught where the statement speaks: best_of on force_algorithm(visualize=..),
+                # in_die, fixed_unmoved, deterministic on the visualize runs themselves.
+                ctx.model_drift("visualize_changes_the_returned_layout")
+                continue
             detail = {"call": t["call"], "n": t["n"]}
             if t["kind"] == "run":
                 detail.update({k: t[k] for k in ("fx", "p0", "fin", "ok", "W", "H") if k in t})
